@@ -122,3 +122,88 @@ Lemma decode_replies reps : Forall sendable reps ->
 Proof.
   intros H. unfold decode_out, drain_buf. rewrite drain_replies by (auto; lia). reflexivity.
 Qed.
+
+(** ================= segmentation independence at the connection level ================= *)
+(** How the request bytes are cut into reads does not matter: as long as the connection is
+    not closed by an earlier read (QUIT or a protocol violation end a connection after the
+    read they arrive in, so what follows them in LATER reads is never processed), feeding the
+    chunks one read after the other produces the same output bytes, the same parser
+    remainder, the same server state and the same closing decision as one read of their
+    concatenation. *)
+Lemma write_replies_app r1 r2 : write_replies (r1 ++ r2) = write_replies r1 ++ write_replies r2.
+Proof.
+  induction r1 as [|f r1 IH]; [reflexivity|]. cbn [app].
+  destruct f; cbn [write_replies]; rewrite ?IH, ?app_assoc; reflexivity.
+Qed.
+
+Lemma conn_read_split now s c buf c1 c2 o1 b1 s1 :
+  conn_read now s c buf c1 = (o1, b1, s1, false) ->
+  conn_read now s c buf (c1 ++ c2) =
+  match conn_read now s1 c b1 c2 with (o2, b2, s2, cl) => (o1 ++ o2, b2, s2, cl) end.
+Proof.
+  unfold conn_read. intros H.
+  rewrite app_assoc, (drain_buf_split no_double (buf ++ c1) c2).
+  destruct (drain_buf no_double (buf ++ c1)) as [[fs1 st1] bb1] eqn:D1.
+  destruct (serve_frames now s c fs1 [] false) as [[r1 s1'] q1] eqn:S1.
+  (* the first read did not close: no QUIT, no violation *)
+  assert (Hopen : q1 = false /\ st1 = NeedMore).
+  { destruct st1; destruct q1; cbn [orb] in H; inversion H; split; reflexivity. }
+  destruct Hopen as [-> ->]. cbn [orb] in H. inversion H; subst o1 b1 s1. clear H.
+  destruct (drain_buf no_double (bb1 ++ c2)) as [[fs2 st2] b2] eqn:D2.
+  rewrite serve_frames_app, S1.
+  destruct (serve_frames now s1' c fs2 [] false) as [[r2 s2] q2] eqn:S2.
+  destruct st2; cbn [orb]; rewrite <- ?app_assoc, !write_replies_app; reflexivity.
+Qed.
+
+(** every read but the last leaves the connection open *)
+Fixpoint opens (now : Z) (s : server) (c : Z) (buf : bytes) (chunks : list bytes) : bool :=
+  match chunks with
+  | [] => true
+  | [_] => true
+  | ch :: r => match conn_read now s c buf ch with
+               | (_, b', s', closed) => negb closed && opens now s' c b' r
+               end
+  end.
+
+Lemma conn_feed_out now c : forall chunks s buf out,
+  conn_feed now s c buf chunks out =
+  match conn_feed now s c buf chunks [] with (o, b, s', cl) => (out ++ o, b, s', cl) end.
+Proof.
+  induction chunks as [|ch r IH]; intros s buf out; cbn [conn_feed].
+  - rewrite app_nil_r. reflexivity.
+  - destruct (conn_read now s c buf ch) as [[[o b'] s'] [|]].
+    + reflexivity.
+    + rewrite (IH s' b' (out ++ o)), (IH s' b' ([] ++ o)).
+      destruct (conn_feed now s' c b' r []) as [[[o2 b2] s2] cl]. cbn [app]. rewrite app_assoc. reflexivity.
+Qed.
+
+Theorem conn_feed_concat now c : forall chunks s buf,
+  chunks <> [] -> opens now s c buf chunks = true ->
+  conn_feed now s c buf chunks [] = conn_feed now s c buf [concat chunks] [].
+Proof.
+  induction chunks as [|ch r IH]; intros s buf Hne Ho; [congruence|].
+  destruct r as [|ch2 r'].
+  - cbn [concat]. rewrite app_nil_r. reflexivity.
+  - cbn [opens] in Ho.
+    destruct (conn_read now s c buf ch) as [[[o1 b1] s1] cl1] eqn:R1.
+    apply andb_prop in Ho as [Hc Ho]. apply negb_true_iff in Hc. subst cl1.
+    change (conn_feed now s c buf (ch :: ch2 :: r') []) with
+      (match conn_read now s c buf ch with
+       | (o, buf', s', true) => ([] ++ o, buf', s', true)
+       | (o, buf', s', false) => conn_feed now s' c buf' (ch2 :: r') ([] ++ o)
+       end).
+    rewrite R1. cbn [app]. rewrite conn_feed_out. rewrite (IH s1 b1 ltac:(discriminate) Ho).
+    change (concat (ch :: ch2 :: r')) with (ch ++ concat (ch2 :: r')).
+    change (conn_feed now s c buf [ch ++ concat (ch2 :: r')] []) with
+      (match conn_read now s c buf (ch ++ concat (ch2 :: r')) with
+       | (o, buf', s', true) => ([] ++ o, buf', s', true)
+       | (o, buf', s', false) => ([] ++ o, buf', s', false)
+       end).
+    rewrite (conn_read_split now s c buf ch (concat (ch2 :: r')) o1 b1 s1 R1).
+    change (conn_feed now s1 c b1 [concat (ch2 :: r')] []) with
+      (match conn_read now s1 c b1 (concat (ch2 :: r')) with
+       | (o, buf', s', true) => ([] ++ o, buf', s', true)
+       | (o, buf', s', false) => ([] ++ o, buf', s', false)
+       end).
+    destruct (conn_read now s1 c b1 (concat (ch2 :: r'))) as [[[o2 b2] s2] [|]]; cbn [app]; reflexivity.
+Qed.
